@@ -22,7 +22,7 @@ from boltons.iterutils import split_iter, chunked_iter, windowed_iter, unique_it
 from boltons.funcutils import FunctionBuilder
 
 from .core import glom, T, STOP, SKIP, _MISSING, Path, TargetRegistry, Call, Spec, Pipe, S, bbrepr, format_invocation
-from .core import LAST_CHILD_SCOPE
+from .core import LAST_CHILD_SCOPE, NO_PYFRAME
 from .matching import Check
 
 def _glom_lazily(target, spec, scope):
@@ -97,6 +97,9 @@ class Iter:
         return ''.join(chunks)
 
     def glomit(self, target, scope):
+        # the sub-specs run when the iterator is consumed, after this call has
+        # returned: an error raised then still belongs to this level of the trace
+        scope.maps[0][NO_PYFRAME] = True
         iterator = self._iterate(target, scope)
 
         for _, _, callback in reversed(self._iter_stack):
